@@ -264,7 +264,8 @@ def m_tuple(interp, args, kwargs):
     if isinstance(src, (SOpt, SChoice)):
         src = interp.resolve(src)
     if isinstance(src, SList):
-        return src
+        from . import seqs
+        return seqs.frozen(src)
     return tuple(interp.iterate(src))
 
 
@@ -713,7 +714,8 @@ def slist_iter(interp, xs):
 
 
 def slist_copy(interp, xs):
-    return xs
+    from . import seqs
+    return seqs.copy(xs)
 
 
 def slist_binop(interp, opcls, a, b):
